@@ -233,6 +233,15 @@ fn run_case(i: u64, rng: &mut Rng, rep: &mut Report, verbose: bool) {
     }
     let entries_only = chain.contains(&Ad::EntriesOnly);
     let fault_after = if rng.chance(1, 6) { Some(rng.usize(raw.len())) } else { None };
+    // direct streams: the server holds back everything from message `p` on; the client's next() that
+    // waits for message `p` is given up (its future is dropped, as by a timeout or select! around
+    // it), then the rest is sent.  Nothing may be lost: the call is repeated and the model is unchanged.
+    let pause_at: Option<usize> = if chain.is_empty() && rng.chance(1, 3) {
+        let p = rng.usize(raw.len());
+        if fault_after.map(|f| p < f).unwrap_or(true) { Some(p) } else { None }
+    } else {
+        None
+    };
     // client call script
     let mut calls: Vec<CallK> = vec![];
     let style = rng.below(4);
@@ -272,16 +281,28 @@ fn run_case(i: u64, rng: &mut Rng, rep: &mut Report, verbose: bool) {
     let raw2 = raw.clone();
     let calls2 = calls.clone();
     let chain2 = chain.clone();
-    let (rets, start_state, drv) = rt.block_on(async move {
+    let (rets, start_state, drv, cancelled) = rt.block_on(async move {
         let c = connect();
         let mut ldap = c.ldap;
         let mut server = c.server;
+        let resume = std::sync::Arc::new(tokio::sync::Notify::new());
+        let resume2 = resume.clone();
         let srv = tokio::spawn(async move {
             if let Some(w) = server.request().await {
                 if let Ok(m) = w.msg {
                     let upto = fault_after.unwrap_or(raw2.len());
+                    let mut from = 0;
+                    if let Some(p) = pause_at {
+                        let mut bytes = vec![];
+                        for (r, cs) in &raw2[..p] {
+                            bytes.extend_from_slice(&ber::encode_min(&resp_node(m.id, r, cs.as_deref())));
+                        }
+                        server.send_chunked(&bytes, chunk, &mut srng);
+                        resume2.notified().await;
+                        from = p;
+                    }
                     let mut bytes = vec![];
-                    for (r, cs) in &raw2[..upto] {
+                    for (r, cs) in &raw2[from..upto] {
                         bytes.extend_from_slice(&ber::encode_min(&resp_node(m.id, r, cs.as_deref())));
                     }
                     server.send_chunked(&bytes, chunk, &mut srng);
@@ -309,11 +330,31 @@ fn run_case(i: u64, rng: &mut Rng, rep: &mut Report, verbose: bool) {
             Err(e) => {
                 drop(ldap);
                 let _ = srv.await;
-                return (vec![], format!("start failed: {}", e), c.driver.await);
+                resume.notify_one();
+                return (vec![], format!("start failed: {}", e), c.driver.await, 0u64);
             }
         };
         let start_state = st_of(st.state()).to_string();
+        let mut next_calls = 0usize;
+        let mut cancelled = 0u64;
+        let mut resumed = false;
         for ck in &calls2 {
+            if let (CallK::Next, Some(p)) = (ck, pause_at) {
+                if !resumed && next_calls == p && matches!(st.state(), StreamState::Active) {
+                    match tokio::time::timeout(std::time::Duration::from_millis(50), Caught::new(st.next())).await {
+                        Err(_) => cancelled += 1,
+                        Ok(_) => {
+                            rets.push(Ret::State("CANCEL-PROBE-RETURNED"));
+                            break;
+                        }
+                    }
+                    resumed = true;
+                    resume.notify_one();
+                }
+            }
+            if let CallK::Next = ck {
+                next_calls += 1;
+            }
             let r = match ck {
                 CallK::State => Ret::State(st_of(st.state())),
                 CallK::Next => match world::watchdog(Caught::new(st.next())).await {
@@ -353,11 +394,15 @@ fn run_case(i: u64, rng: &mut Rng, rep: &mut Report, verbose: bool) {
             };
             rets.push(r);
         }
+        if !resumed {
+            resume.notify_one();
+        }
         drop(st);
         drop(ldap);
         let _ = srv.await;
-        (rets, start_state, c.driver.await)
+        (rets, start_state, c.driver.await, cancelled)
     });
+    rep.count("pending_next_calls_given_up_and_repeated", cancelled);
     let replay = json!({"lane":"streams","case":i});
     let kind = if chain.is_empty() { "direct".to_string() } else { format!("adapted[{}]", chain.iter().map(|a| match a { Ad::Pass => "P", Ad::EntriesOnly => "E", Ad::FailAfter(_) => "F" }).collect::<String>()) };
     let kind_sig = if chain.is_empty() { "direct" } else if entries_only { "adapted-entries-only" } else { "adapted-pass-through" };
@@ -382,6 +427,10 @@ fn run_case(i: u64, rng: &mut Rng, rep: &mut Report, verbose: bool) {
             };
             let phase = match model.state { St::Active => "while-active", St::Done => "after-end", St::Closed => "after-finish", St::Error => "after-error" };
             rep.violation(format!("C10:{}:{}-panics:{}@{}", kind_sig, format!("{:?}", ck).to_lowercase(), phase, site), format!("history {:?}", history), replay.clone());
+            break;
+        }
+        if let Ret::State("CANCEL-PROBE-RETURNED") = got {
+            rep.violation(format!("C10:{}:next-returned-although-the-server-had-not-sent-the-next-message", kind_sig), format!("history {:?}; the server was holding back message {:?}", history, pause_at), replay.clone());
             break;
         }
         if let Ret::State("HUNG") = got {
